@@ -107,6 +107,7 @@ structure Child where
   cf : Nat          -- consecutiveFaults
   last : Int        -- lastFaultAtNano (0 = never)
   hist : List Int   -- ghost: the clock readings of `recordFault`, newest first (never printed)
+  failNext : Nat := 0   -- script-controlled: how many of the next PreStart calls return an error
   deriving Repr
 
 def Child.fresh : Child :=
@@ -158,6 +159,37 @@ def restartOne (c : Child) : Child × Bool :=
   let (c1, stopped) := if c.alive then shutdown c else (c, false)
   ({ c1 with pre := c1.pre + 1, handled := 0, running := true, reg := true, susp := false, rc := c.rc + 1 }, stopped)
 
+/-! #### a restart whose PreStart fails (scripted by the harness op `F<i><k>`) -/
+
+/-- `pid.init`: PreStart is tried up to DefaultInitMaxRetries = 5 times -/
+def initOnce (c : Child) : Child × Bool :=
+  if c.failNext ≥ 5 then ({ c with pre := c.pre + 5, failNext := c.failNext - 5 }, false)
+  else ({ c with pre := c.pre + c.failNext + 1, failNext := 0 }, true)
+
+/-- one `spid.Restart` (restartSubtree of a leaf).  The parent is looked up in the tree when Restart is
+    called: after a first attempt that failed behind its embedded shutdown the death watch has removed the
+    node, the lookup fails, and the re-attach is skipped — the restarted child runs outside the tree.  The
+    restart count is snapshotted per attempt, i.e. after the failed attempt's reset. -/
+def restartAttempt (c : Child) : Child × List EvKind × Bool :=
+  let parentFound := c.reg
+  let (c1, ev1) := if c.alive then ({ (shutdown c).1 with reg := false }, [EvKind.st]) else (c, [])
+  let (c2, ok) := initOnce c1
+  if ok then
+    ({ c2 with handled := 0, running := true, reg := parentFound || c2.reg, susp := false, rc := c.rc + 1 },
+     ev1 ++ [.sa, .re], true)
+  else (c2, ev1, false)
+
+/-- `restartChild`: up to `tries` attempts (the retrier), then a final Shutdown of what is left -/
+def restartLoop : Nat → Child → Child × List EvKind
+  | 0, c =>
+    if c.running then ({ (shutdown c).1 with reg := false }, [.st]) else (c, [])
+  | tries + 1, c =>
+    let (c1, ev, ok) := restartAttempt c
+    if ok then (c1, ev)
+    else let (c2, ev2) := restartLoop tries c1; (c2, ev ++ ev2)
+
+def restartTries (s : Supervisor) : Nat := if s.maxRetries = 0 ∨ s.timeout ≤ 0 then 1 else s.maxRetries
+
 /-- group of `handleStopDirective` / `handleRestartDirective` for faulty child `i`:
     `i` itself, plus `tree.siblings(cid)` when the strategy is one-for-all -/
 def inGroup (f : Family) (all : Bool) (i j : Nat) : Bool :=
@@ -196,9 +228,13 @@ def handleRestartDirective (f : Family) (i : Nat) (all : Bool) : Family × List 
   if budgetExhausted f.sup faults then
     ({ f1 with cs := mapGroup f1 all i (suspendSibling i) },
      groupEvents f1 all i (fun j c => evIf (j != i && c.alive) .su j))
-  else
+  else if f.cs.all (fun c => c.failNext == 0) then
     ({ f1 with cs := mapGroup f1 all i (fun _ c => (restartOne c).1) },
      groupEvents f1 all i (fun j c => evIf (restartOne c).2 .st j ++ [(.sa, j), (.re, j)]))
+  else
+    -- some PreStart is scripted to fail: the attempts are played one by one
+    ({ f1 with cs := mapGroup f1 all i (fun _ c => (restartLoop (restartTries f.sup) c).1) },
+     groupEvents f1 all i (fun j c => (restartLoop (restartTries f.sup) c).2.map (fun k => (k, j))))
 
 def setChild (f : Family) (i : Nat) (c : Child) : Family := { f with cs := f.cs.set i c }
 
@@ -246,10 +282,16 @@ inductive Op
   | ping (i : Nat)
   | reinstate (i : Nat)
   | age (i : Nat)
+  | failPre (i : Nat) (k : Nat)   -- harness: the next k PreStart calls of child i fail
   deriving Repr
 
 def Op.idx : Op → Nat
-  | .fail i _ => i | .ping i => i | .reinstate i => i | .age i => i
+  | .fail i _ => i | .ping i => i | .reinstate i => i | .age i => i | .failPre i _ => i
+
+/-- ops the refinement theorems cover (everything but scripted PreStart failures) -/
+def Op.plain : Op → Bool
+  | .failPre _ _ => false
+  | _ => true
 
 inductive Res | ok | dead | err
   deriving DecidableEq, Repr
@@ -276,6 +318,9 @@ def step (f : Family) (op : Op) : Family × Res × List Event :=
     if c.last = 0 then (f, .ok, [])
     -- ghost: the whole current run of consecutive faults is moved into the distant past
     else (setChild f i { c with last := 1, hist := List.replicate c.cf 1 }, .ok, [])
+  | .failPre i k =>
+    let c := f.cs.getD i Child.fresh
+    (setChild f i { c with failNext := k }, .ok, [])
 
 /-- run a whole op script; returns every intermediate (family, result, events), oldest first -/
 def run (f : Family) : List Op → List (Family × Res × List Event)
